@@ -31,7 +31,7 @@ ASSUMPTIONS = [
 REQUIRED_MONITORS = ['fields:compared', 'backend:pandas', 'backend:sqlite', 'sql:statements', 'reach:calc_min',
                      'reach:calc_nunique']
 REQUIRED_CLASSES = ['kind=%s' % k for k in F.RECOGNISED] + ['sqltype=%s' % s for s in T.SQLTYPES] + \
-    ['rows=0', 'nulls=all', 'ndistinct=20', 'ndistinct=21']
+    ['rows=0', 'nulls=all', 'ndistinct=20', 'ndistinct=21', 'numeric=whole_beyond_2**53']
 
 _counter = collections.Counter()
 _installed = False
@@ -60,6 +60,8 @@ def same_value(kind, got, want, col):
         return g == want
     if isinstance(want, bool) or isinstance(got, bool):
         return got == want
+    if 'sqltype' in col and type(got) in (int, float) and type(want) in (int, float):
+        return got == want                                       # exact, also for whole numbers beyond 2**53
     if isinstance(want, float) or isinstance(got, float):
         try:
             return float(got) == float(want)
@@ -113,6 +115,8 @@ def classes(cols, nrows):
             cls.append(('ndistinct=%d' % len(set(v for v in c['values'] if v is not None)),))
         if 'sqltype' in c:
             cls.append(('sqltype=' + c['sqltype'],))
+            if any(isinstance(v, int) and not isinstance(v, bool) and abs(v) > 2 ** 53 for v in c['values']) and c['kind'] == 'float64':
+                cls.append(('numeric=whole_beyond_2**53',))
     return cls
 
 
@@ -167,7 +171,7 @@ def run_shard(ctx):
     nk = len(F.RECOGNISED)
     for i in range(ctx.params['cases']):
         if i % 5 == 4:
-            case = {'backend': 'sqlite', 'spec': T.gen_table(rng, allow_nul=True, allow_pk=True)}
+            case = {'backend': 'sqlite', 'spec': T.gen_table(rng, allow_nul=True, allow_pk=True, allow_big_whole=True)}
         elif i < nk and ctx.shard % 4 == 0:
             kind = F.RECOGNISED[i % nk]
             spec = F.gen_frame(rng, kinds=[kind], nrows=rng.choice([1, 2, 3, 21, 30]))
